@@ -43,6 +43,11 @@ type Gate struct {
 	Parked    chan string
 	Release   chan struct{}
 	Stmts     int // statements executed by this client (all kinds)
+	// ParkAll: also park (reason "extra") before any further statement or transaction of the same call that the
+	// two-statement protocol does not have — code that reads, then writes in a second statement, is then interleaved
+	// with the other clients between the two
+	ParkAll bool
+	inCall  int // statements executed since Arm
 	inTx      bool // inside a transaction opened with this client's context
 	sawMiss   bool // a conditional UPDATE matched no row inside the open transaction
 }
@@ -50,7 +55,7 @@ type Gate struct {
 func NewGate() *Gate { return &Gate{Parked: make(chan string), Release: make(chan struct{})} }
 
 // Arm makes the next statement of the client park (used when a call starts).
-func (g *Gate) Arm() { g.blockNext, g.reason = true, "first" }
+func (g *Gate) Arm() { g.blockNext, g.reason, g.inCall = true, "first", 0 }
 
 func With(ctx context.Context, g *Gate) context.Context { return context.WithValue(ctx, ctxKey{}, g) }
 
@@ -60,6 +65,11 @@ func gateOf(ctx context.Context) *Gate {
 }
 
 func (g *Gate) before() (wasClassify bool) {
+	if !g.blockNext && g.ParkAll && g.inCall > 0 && !g.inTx {
+		g.Parked <- "extra"
+		<-g.Release
+		return false
+	}
 	if !g.blockNext {
 		return false
 	}
@@ -72,6 +82,7 @@ func (g *Gate) before() (wasClassify bool) {
 
 func (g *Gate) after(query string, isExec bool, rows int64, wasClassify bool) {
 	g.Stmts++
+	g.inCall++
 	if isExec && rows == 0 && strings.HasPrefix(strings.TrimSpace(strings.ToUpper(query)), "UPDATE") {
 		if g.inTx {
 			// ent runs UpdateOne inside a transaction (BEGIN; UPDATE; SELECT EXISTS(...); ROLLBACK): parking inside it
@@ -139,6 +150,10 @@ func (c *conn) PrepareContext(ctx context.Context, query string) (driver.Stmt, e
 }
 
 func (c *conn) BeginTx(ctx context.Context, opts driver.TxOptions) (driver.Tx, error) {
+	if g := gateOf(ctx); g != nil && g.ParkAll && !g.blockNext && g.inCall > 0 && !g.inTx {
+		g.Parked <- "extra" // a transaction opened after the call has already run a statement
+		<-g.Release
+	}
 	t, err := c.Conn.(driver.ConnBeginTx).BeginTx(ctx, opts)
 	if err != nil {
 		return nil, err
